@@ -25,6 +25,10 @@ class Validation:
       seg = self.get("sid")
       seq = seg.sequence
       if not gfapy.is_placeholder(seq):
+        if not isinstance(seq, str):
+          raise gfapy.TypeError(
+              "Segment: {}\n".format(str(seg))+
+              "the sequence is not a string")
         seqlen = len(seq)
         for sfx in ["beg", "end"]:
           fn = "s_"+sfx
